@@ -329,6 +329,117 @@ pub fn sweep_read_options() -> (Vec<F>, usize, usize) {
     (fs, n_values, n_queries)
 }
 
+/// Part 2b: the real client (`xs::client`) talking to the real server: options, TTLs, meta,
+/// context and content must arrive exactly as sent.
+pub fn sweep_client() -> (Vec<F>, usize, usize) {
+    let mut fs = vec![];
+    let dir = common::scratch_dir("e6c");
+    let server = Server::start(dir);
+    let addr = server.dir.to_string_lossy().to_string();
+    let store = server.store.clone();
+    let ctx = store.append(Frame::builder("xs.context", ZERO_CONTEXT).build()).unwrap().id;
+    let mut n_app = 0;
+    let ttls: Vec<Option<TTL>> = vec![
+        None,
+        Some(TTL::Forever),
+        Some(TTL::Time(Duration::from_millis(1))),
+        Some(TTL::Time(Duration::from_millis(3_600_000))),
+        Some(TTL::Time(Duration::from_millis(u64::MAX))),
+        Some(TTL::Head(1)),
+        Some(TTL::Head(u32::MAX)),
+    ];
+    let metas: Vec<Option<Value>> = vec![
+        None,
+        Some(json!({"a": 1})),
+        Some(json!({"u": "h\u{e9}llo \u{1F600}", "n": [1.5, -0.0, 18446744073709551615u64, null, true], "nested": {"k": {"k": []}}})),
+        Some(json!("just a string")),
+        Some(json!([1, 2, 3])),
+        Some(serde_json::from_str(&nested(100, true)).unwrap()),
+    ];
+    for ttl in &ttls {
+        for meta in &metas {
+            for c in [None, Some(ctx)] {
+                for body in [&b""[..], &b"content \xff bytes"[..]] {
+                    n_app += 1;
+                    let cs = c.map(|x| x.to_string());
+                    let topic = "cl\u{e9}";
+                    let data = std::io::Cursor::new(body.to_vec());
+                    let r = server.rt.block_on(xs::client::append(&addr, "cli", data, meta.as_ref(), ttl.clone(), cs.as_deref()));
+                    let _ = topic;
+                    let label = format!("client append ttl={:?} meta={} ctx={:?} body={}B", ttl, meta.as_ref().map(|m| m.to_string().chars().take(30).collect::<String>()).unwrap_or("-".into()), cs.is_some(), body.len());
+                    match r {
+                        Err(e) => fs.push(F { kind: "client.append_failed".into(), msg: format!("{}: {}", label, e) }),
+                        Ok(bytes) => match serde_json::from_slice::<Frame>(&bytes) {
+                            Err(e) => fs.push(F { kind: "client.append_failed".into(), msg: format!("{}: undecodable answer {}", label, e) }),
+                            Ok(f) => {
+                                let want_ttl = ttl.clone().unwrap_or(TTL::Forever);
+                                let stored = store.get(&f.id);
+                                let got_content = f.hash.as_ref().and_then(|h| store.cas_read_sync(h).ok());
+                                let content_ok = if body.is_empty() { f.hash.is_none() } else { got_content.as_deref() == Some(body) };
+                                if f.topic != "cli" || f.context_id != c.unwrap_or(ZERO_CONTEXT) || f.ttl != Some(want_ttl.clone()) || &f.meta != meta || stored.as_ref() != Some(&f) || !content_ok {
+                                    fs.push(F { kind: "client.trip".into(), msg: format!("{}: arrived as topic {:?} ctx {} ttl {:?} meta {:?} (stored identically: {}, content ok: {})", label, f.topic, f.context_id, f.ttl, f.meta, stored.as_ref() == Some(&f), content_ok) });
+                                }
+                            }
+                        },
+                    }
+                }
+            }
+        }
+    }
+    // reads: every non-following option combination through the client
+    let all: Vec<Frame> = store.read_sync(None, None, None).collect();
+    let mid = all[all.len() / 2].id;
+    let mut n_cat = 0;
+    for tail in [false, true] {
+        for last in [None, Some(mid)] {
+            for limit in [None, Some(0usize), Some(1), Some(3), Some(usize::MAX)] {
+                for c in [None, Some(ctx), Some(ZERO_CONTEXT)] {
+                    for sse in [false, true] {
+                        n_cat += 1;
+                        let o = ReadOptions::builder().tail(tail).maybe_last_id(last).maybe_limit(limit).maybe_context_id(c).build();
+                        let label = format!("client cat {:?} sse={}", o, sse);
+                        let st = store.clone();
+                        let o2 = o.clone();
+                        let want: Vec<Frame> = server.rt.block_on(async move {
+                            let mut rx = st.read(o2).await;
+                            let mut v = vec![];
+                            while let Some(f) = rx.recv().await {
+                                v.push(f);
+                            }
+                            v
+                        });
+                        let addr2 = addr.clone();
+                        let got: Result<Vec<u8>, String> = server.rt.block_on(async move {
+                            let mut rx = xs::client::cat(&addr2, o, sse).await.map_err(|e| e.to_string())?;
+                            let mut v = vec![];
+                            while let Some(b) = rx.recv().await {
+                                v.extend_from_slice(&b);
+                            }
+                            Ok(v)
+                        });
+                        match got {
+                            Err(e) => fs.push(F { kind: "client.cat_failed".into(), msg: format!("{}: {}", label, e) }),
+                            Ok(bytes) => {
+                                let text = String::from_utf8_lossy(&bytes).to_string();
+                                let frames: Vec<Frame> = text
+                                    .lines()
+                                    .filter(|l| !l.is_empty() && !l.starts_with("id: "))
+                                    .filter_map(|l| serde_json::from_str(l.strip_prefix("data: ").unwrap_or(l)).ok())
+                                    .collect();
+                                if frames != want {
+                                    fs.push(F { kind: "client.trip".into(), msg: format!("{}: the client received {} frames, Store::read with the same options returns {}", label, frames.len(), want.len()) });
+                                }
+                            }
+                        }
+                    }
+                }
+            }
+        }
+    }
+    server.stop();
+    (fs, n_app, n_cat)
+}
+
 fn nested(depth: usize, array: bool) -> String {
     let (o, c) = if array { ("[", "]") } else { ("{\"k\":", "}") };
     let mut s = String::new();
@@ -526,6 +637,7 @@ pub fn worker() {
                 sweep_ttl(&mine)
             }
             "options" => sweep_read_options(),
+            "client" => sweep_client(),
             "frames" => sweep_frames(chunk, of),
             _ => panic!("unknown part"),
         };
@@ -541,12 +653,14 @@ pub fn run_c12(tier: &str, report: &mut Report) {
         jobs.push(json!({"part": "ttl", "chunk": c, "of": of}));
     }
     jobs.push(json!({"part": "options"}));
+    jobs.push(json!({"part": "client"}));
     for c in 0..of {
         jobs.push(json!({"part": "frames", "chunk": c, "of": of}));
     }
     let results = common::pool_map("e6", &[], common::ncpu(), jobs.clone());
     let mut kinds: HashSet<String> = HashSet::new();
     let (mut ttl_acc, mut ttl_rej, mut opt_vals, mut opt_q, mut fr_acc, mut fr_rej) = (0u64, 0u64, 0u64, 0u64, 0u64, 0u64);
+    let (mut cl_app, mut cl_cat) = (0u64, 0u64);
     for (j, r) in jobs.iter().zip(results.iter()) {
         if r.get("crashed").is_some() || r.get("panicked").is_some() {
             // a crash of the whole worker means the subject took the process down on some input
@@ -568,6 +682,10 @@ pub fn run_c12(tier: &str, report: &mut Report) {
                 opt_vals += a;
                 opt_q += b;
             }
+            "client" => {
+                cl_app += a;
+                cl_cat += b;
+            }
             _ => {
                 fr_acc += a;
                 fr_rej += b;
@@ -584,16 +702,17 @@ pub fn run_c12(tier: &str, report: &mut Report) {
             });
         }
     }
-    let total = ttl_acc + ttl_rej + opt_vals + opt_q + fr_acc + fr_rej;
+    let total = ttl_acc + ttl_rej + opt_vals + opt_q + fr_acc + fr_rej + cl_app + cl_cat;
     report.cov("evaluations", json!(total));
     report.cov("distinct_nontrivial", json!(total));
     report.cov("states", json!(total));
     report.cov("transitions", json!(total));
     report.cov("traces_validated_against_impl", json!(total));
-    report.cov("rule", json!("every concatenation of <=3 tokens of the 17-token TTL alphabet (deduplicated); every ReadOptions value of the 8x2x2x4x3 product; every query string of <=3 distinct-key pairs over the option alphabet (third pair thinned); every xs-meta text of the meta alphabet through POST /{topic}; frames over topic x hash x ttl x meta (one or two dimensions off the base point) through POST /import. All inputs are distinct by construction; each goes through the real parser / HTTP boundary."));
+    report.cov("rule", json!("every concatenation of <=3 tokens of the 17-token TTL alphabet (deduplicated); every ReadOptions value of the 8x2x2x4x3 product; every query string of <=3 distinct-key pairs over the option alphabet (third pair thinned); every xs-meta text of the meta alphabet through POST /{topic}; frames over topic x hash x ttl x meta (one or two dimensions off the base point) through POST /import; the real client (xs::client::append / cat) against the real server over 7 TTLs x 6 metas x 2 contexts x 2 bodies and 120 non-following option combinations in both renderings. All inputs are distinct by construction; each goes through the real parser / HTTP boundary."));
     report.cov("ttl_strings", json!({"accepted": ttl_acc, "rejected": ttl_rej}));
     report.cov("read_options", json!({"values": opt_vals, "query_strings": opt_q}));
     report.cov("frames", json!({"accepted": fr_acc, "rejected": fr_rej}));
+    report.cov("client_trips", json!({"appends": cl_app, "cats": cl_cat}));
     report.cov("exhaustive", json!(true));
     report.cov("samples", json!(["time:+1", "head:4294967296", "follow=7&tail=no&limit=18446744073709551615", "xs-meta arr-depth-127", "import topic=\"a\\u0001\" hash=multi ttl=absent meta=null"]));
 }
@@ -610,6 +729,7 @@ pub fn replay(v: &Value) -> i32 {
             sweep_ttl(&mine)
         }
         "options" => sweep_read_options(),
+        "client" => sweep_client(),
         _ => sweep_frames(chunk, of),
     };
     for f in &fs {
